@@ -3,7 +3,7 @@ CANON = True
 
 import ast
 
-from .. import pyq, readerq
+from .. import pm, pyq, readerq
 from ..pysrc import dotted, norm, flat
 from ..readerq import HR, RD
 
@@ -41,9 +41,11 @@ def check_positions(ctx, src, rq=None):
     # --- getc arithmetic shape
     g = rq.methods["getc"][1]
     t = flat(g)
-    ctx.check("line, col = self._pos col += 1 if c == '\\n': line += 1 col = 0 self._pos = (line, col)" in t, "POS-STEP", f"{RD}|Reader.getc|step", "getc must advance the column by one per character and start a new line exactly at '\\n'", RD, g.lineno,
+    step = pm.find(g, "line, col = self._pos\ncol += 1\nif c == '\\n':\n    line += 1\n    col = 0\nself._pos = (line, col)")
+    ctx.check(step is not None, "POS-STEP", f"{RD}|Reader.getc|step", "getc must advance the column by one per character and start a new line exactly at '\\n'", RD, g.lineno,
               witness="CRLF source counts every line twice", detail="col += 1; on '\\n': line += 1, col = 0")
-    ctx.check("if c: line, col = self._pos" in t, "POS-STEP", f"{RD}|Reader.getc|eof", "the end-of-input read must not advance the position", RD, g.lineno, detail="only when c")
+    rv = next((r.value.id for r in ast.walk(g) if isinstance(r, ast.Return) and isinstance(r.value, ast.Name)), None)
+    ctx.check(step is not None and rv is not None and any(str(x) == rv for x in pyq.guard_texts(step, g)), "POS-STEP", f"{RD}|Reader.getc|eof", "the end-of-input read must not advance the position", RD, g.lineno, detail="only when c")
     # --- fill_pos
     fp = rq.methods["fill_pos"][1]
     b = [norm(s) for s in pyq.body_without_doc(fp)]
